@@ -33,7 +33,6 @@ ASSUMPTIONS = [
     "Python's str() of floats, Decimals, enum members, deques, frozensets is an oracle table per case (Render); theorems that need a property of it state it as a hypothesis",
     "hash(str) collisions between different strings are ignored: the correspondence compares str(x), the oracle compares hash(x)",
     "independence of copy.copy is not claimed by the property (it shares the wrappers, which stay bound to the original)",
-    "_none_fields is not part of the pickled state (__setstate__ restores an empty set): pickle_eq assumes it empty",
     "nested Structure values are compared by the core pyEq (same attribute names, values ==), i.e. Structure.__eq__ without the default-for-unset-field reading; top-level instances use the full reading",
 ]
 TRUSTED_EXTRA = [
